@@ -93,7 +93,6 @@ func VH_C01_index2(pshape, qshape, eshape int) {
 	vreach("end")
 }
 
-
 // ---- witness harnesses of the open findings (they must stay violated) ----
 
 // VH_C01_witness_unsortable_event: an event holding an array the index cannot sort
@@ -154,9 +153,9 @@ func VH_C01_witness_array_var() {
 // {K:S} / {a:S,b:S}; leaves: strings len<=6 or integral numbers.
 
 type vhRefRule struct {
-	id     string
-	when   map[string]interface{} // nil: a plain fact is stored under id
-	live   bool
+	id   string
+	when map[string]interface{} // nil: a plain fact is stored under id
+	live bool
 }
 
 func vhRuleFact(when map[string]interface{}) Map {
